@@ -15,7 +15,19 @@ Two parts, both driving the REAL ``param.reactive`` of /repo:
     ``Oracle`` (``denote``) on the inputs' current values; the values handed to a ``.rx.watch``
     callback on the top node are compared with the fresh value as well.
 
+(c) expressions DERIVED FROM DIRTY NODES: the same programs, but only the first m nodes exist when
+    the history starts; after reads (caches populated), an input update (or invalidate / repair)
+    and optionally one more read through another consumer, the remaining nodes are derived and
+    read at once, and again after a later update.  Reported only when the same operations pass
+    with every node built up front (differential: otherwise it is part (b)'s business).
+
+(d) unfolded attribute references (``z.imag``, ``s.start``, ...) in every operand position
+    (right / left / reflected operand, index, slice bound, positional / keyword argument of
+    methods, pipe, map, bind, the .rx helpers), followed through updates of ``z`` and ``x``.
+
 Oracle leniency (never a false alarm):
+  * part (c): when deriving an expression raises and plain Python would raise for one of the
+    derived nodes on the current inputs as well, the history ends there (tolerated).
   * ``and_``/``or_``: the helper receives an already evaluated operand, Python's ``and``/``or``
     short-circuit; when the skipped operand would raise, the read is not checked (ambiguous).
   * when several operands of one node raise, any of their exception classes is accepted
@@ -840,17 +852,31 @@ def _pcls():
 class Live:
     """The real objects of one case."""
 
-    def __init__(self, prog, init=None):
+    def __init__(self, prog, init=None, upto=None):
+        """``upto``: build only the first ``upto`` nodes now, the rest with ``derive_rest`` (part c)."""
         from param import rx, bind
         init = INIT if init is None else init
+        self.prog = prog
         self.rx, self.bind = rx, bind
         self.p = _pcls()(x=init["p"])
         self.a = rx(init["a"])
         self.b = rx(list(init["b"]) if isinstance(init["b"], list) else init["b"])
         self.F = bind(f_bind, self.a, self.p.param.x)
         self.nodes = []
-        for node in prog:
+        for node in (prog if upto is None else prog[:upto]):
             self.nodes.append(self._make(prog, node))
+
+    def derive_rest(self):
+        """build the nodes not built yet, in program order (expressions derived mid-history)."""
+        for node in self.prog[len(self.nodes):]:
+            self.nodes.append(self._make(self.prog, node))
+
+    def read_leaf(self, x):
+        r = self.a if x == "a" else self.b
+        try:
+            return ("val", r.rx.value)
+        except Exception as e:      # noqa: BLE001
+            return ("exc", type(e))
 
     def _arg(self, r):
         if isinstance(r, int):
@@ -1307,7 +1333,9 @@ def _dag_task(args):
         restore()
 
 
-def dag_replay(prog, hist, watch, clause, witness):
+def dag_replay(prog, hist, watch, clause, witness, built=None):
+    """``built``: number of nodes that exist before the history starts (part c); the others are
+    derived at the operation D."""
     hdr = REPLAY_HEADER.format(prop=PROP, name="replay_c09_dag.py", clause=clause, witness=witness)
     rx_lines = render(prog, "rx")
     plain = render(prog, "plain")
@@ -1318,7 +1346,7 @@ def dag_replay(prog, hist, watch, clause, witness):
          "class P(param.Parameterized):", "    x = param.Parameter(default=2)", "",
          "p = P(x=%r); a = rx(%r); b = rx(%r)" % (INIT["p"], INIT["a"], INIT["b"]),
          "F = bind(f_bind, a, p.param.x)"]
-    L += rx_lines
+    L += rx_lines if built is None else rx_lines[:built]
     L.append("")
     L.append("def plain(k, va, vb, vp):")
     L.append("    # the same expression tree in plain Python on the inputs' current values")
@@ -1339,6 +1367,19 @@ def dag_replay(prog, hist, watch, clause, witness):
     lastvalid = dict(INIT)
     for step, op in enumerate(hist):
         last = step == len(hist) - 1
+        if op == "D":
+            L.append("# ---- D: the remaining expressions are derived now, from the nodes in their current state")
+            if last:
+                L.append("try:")
+                L += ["    " + ln for ln in rx_lines[built:]]
+                L.append("except Exception as e:")
+                L.append("    bad = 'deriving the expression raised %s: %s' % (type(e).__name__, e)")
+            else:
+                L += rx_lines[built:]
+            continue
+        if op[0] == "L":
+            L.append("print('read root %s:', %s.rx.value)" % (op[1], op[1]))
+            continue
         if op[0] == "R":
             k = int(op[1:])
             L.append("got = outcome(lambda: n%d.rx.value); want = outcome(lambda: plain(%d, va, vb, vp))" % (k, k))
@@ -1372,6 +1413,430 @@ def dag_replay(prog, hist, watch, clause, witness):
 
 
 # =====================================================================================
+# part (c): expressions derived from dirty nodes (staged construction)
+# =====================================================================================
+# In part (b) every node of a program exists before the history starts.  Here only the first m
+# nodes do; the others are derived in the middle of the history, from parents whose caches were
+# populated by reads and then invalidated by an input update (and possibly half-refreshed through
+# another consumer of the shared root).  The derived expressions must evaluate on the CURRENT
+# inputs at once, and after later updates.  A failure is reported only when the same history with
+# all nodes built up front passes (otherwise it is not specific to the derivation and belongs to
+# part (b)).
+
+def _crc(text):
+    import zlib
+    return zlib.crc32(text.encode())
+
+
+def staged_histories(prog, m, tier, seed, cap):
+    """Histories for ``prog`` with only the nodes < m built at the start:
+         S1  reads of a subset of the read pool (built nodes, rx roots a / b)      populate caches
+         U1  one input update  |  invalidate x, the S1 reads again, repair x         error states
+         S2  nothing, or one read of the pool        another consumer refreshes the shared root
+         D   the remaining nodes are derived now
+         reads of every derived node (top first)
+         U2  nothing, or one more input update followed by the reads of the derived nodes
+       quick: the canonical ones (S1 = whole pool, plain update, U2 = the same input) plus a seeded
+       sample up to ``cap``; thorough: all."""
+    n = len(prog)
+    inputs = prog_inputs(prog)
+    refs = {r for node in prog for r in node[1:]}
+    pool = ["R%d" % k for k in range(m)]
+    if "A" in refs or "F" in refs:
+        pool.append("La")
+    if "B" in refs:
+        pool.append("Lb")
+    new_reads = tuple("R%d" % k for k in range(n - 1, m - 1, -1))
+    if len(pool) <= 3:
+        s1s = [tuple(c) for k in range(len(pool) + 1) for c in itertools.combinations(pool, k)]
+    else:
+        s1s = [()] + [(r,) for r in pool] + [tuple(pool)]
+    s2s = [()] + [(r,) for r in pool]
+    canon, rest = [], []
+    for s1 in s1s:
+        for x in inputs:
+            for u1kind in ("u", "ir"):
+                u1 = ("u" + x,) if u1kind == "u" else (("i" + x,) + s1 + ("r" + x,))
+                for s2 in s2s:
+                    for y in [None] + inputs:
+                        h = s1 + u1 + s2 + ("D",) + new_reads
+                        if y:
+                            h += ("u" + y,) + new_reads
+                        if s1 == tuple(pool) and u1kind == "u" and y == x:
+                            canon.append(h)
+                        else:
+                            rest.append(h)
+    if tier == "thorough" or len(canon) + len(rest) <= cap:
+        return canon + rest, True
+    rng = random.Random(1000003 * (seed + 1) + _crc(prog_key(prog)) + m)
+    k = max(0, cap - len(canon))
+    return canon + (rng.sample(rest, k) if k < len(rest) else rest), False
+
+
+def run_staged(prog, m, hist, oracle):
+    """Drive one staged history.  Returns (n_read_checks, fails); fail = (clause, kind, step, detail, cul)."""
+    live = Live(prog, upto=m)
+    n = len(prog)
+    sigma = {k: (list(v) if isinstance(v, list) else v) for k, v in INIT.items()}
+    pos = {"a": 0, "b": 0, "p": 0}
+    lastvalid = dict(sigma)
+    snaps = []
+    nread = 0
+    for step, op in enumerate(hist):
+        if op == "D":
+            try:
+                live.derive_rest()
+            except Exception as e:      # noqa: BLE001
+                wants = [oracle.ev(j, sigma) for j in range(len(live.nodes), n)]
+                if all(w is not AMB and w[0] == "val" for w in wants):
+                    j = len(live.nodes)
+                    return nread, [("C09/derive/builds", "raises-at-derive", step,
+                                    "deriving node %d (%s) raised %s: %s although every derived node has a "
+                                    "value on the current inputs" % (j, prog[j][0], type(e).__name__, e), j)]
+                return nread, []        # plain Python raises here as well: tolerated, history ends
+            continue
+        if op[0] == "L":
+            x = op[1]
+            got = live.read_leaf(x)
+            nread += 1
+            if not out_ok(got, ("val", sigma[x])):
+                return nread, [("C09/derive/value==denote", "wrong-root", step,
+                                "root %s reads %s, its value is %s" % (x, show(got), short(sigma[x])), 0)]
+            continue
+        if op[0] == "R":
+            k = int(op[1:])
+            want = oracle.ev(k, sigma)
+            got = live.read(k)
+            if want is AMB:
+                continue
+            nread += 1
+            if not out_ok(got, want):
+                cul, cgot, cwant = k, got, want
+                for j in range(min(k, len(live.nodes))):
+                    wj = oracle.ev(j, sigma)
+                    if wj is AMB:
+                        continue
+                    gj = live.read(j)
+                    if not out_ok(gj, wj):
+                        cul, cgot, cwant = j, gj, wj
+                        break
+                kind = _classify(prog, oracle, sigma, cul, cgot, cwant, snaps)
+                return nread, [("C09/derive/value==denote", kind, step,
+                                "read node=%d got=%s want=%s; culprit node=%d (%s) got=%s want=%s" % (
+                                    k, show(got), show(want), cul, prog[cul][0], show(cgot), show(cwant)), cul)]
+            continue
+        x = op[1]
+        snaps.append(dict(sigma))
+        if op[0] == "u":
+            pos[x] += 1
+            v = CYCLE[x][pos[x] % len(CYCLE[x])]
+            v = list(v) if isinstance(v, list) else v
+            sigma[x] = v
+            lastvalid[x] = v
+        elif op[0] == "i":
+            v = INVALID
+            sigma[x] = v
+        else:
+            v = lastvalid[x]
+            v = list(v) if isinstance(v, list) else v
+            sigma[x] = v
+        live.set_input(x, v)
+    return nread, []
+
+
+def _staged_task(args):
+    prog, tier, seed, cap = args
+    restore = _quiet()
+    try:
+        oracle = Oracle(prog)
+        n = len(prog)
+        ncase = nread = ndropped = 0
+        fails = []
+        exhaustive = True
+        # quick: programs of several nodes start with at least one node built (deriving from a
+        # dirty ROOT is covered by the one-node programs); thorough: every m
+        for m in range(0 if (n == 1 or tier == "thorough") else 1, n):
+            hists, full = staged_histories(prog, m, tier, seed, cap)
+            exhaustive = exhaustive and full
+            for h in hists:
+                ncase += 1
+                try:
+                    r, f = run_staged(prog, m, h, oracle)
+                except Exception as e:      # noqa: BLE001  harness problem: report, never hide
+                    import traceback
+                    r, f = 0, [("C09/derive/harness", "build-error", 0, "%s: %s | %s" % (
+                        type(e).__name__, e, traceback.format_exc().splitlines()[-3:]), n - 1)]
+                nread += r
+                for (clause, kind, step, detail, cul) in f:
+                    hh = h[:step + 1]
+                    if clause != "C09/derive/harness":
+                        # differential: the same operations with every node built up front
+                        flat = tuple(o for o in hh if o != "D")
+                        try:
+                            _, f0 = run_staged(prog, n, flat, oracle)
+                        except Exception:       # noqa: BLE001
+                            f0 = [None]
+                        if f0:
+                            ndropped += 1
+                            continue
+                    fails.append((clause, kind, hh, m, detail, cul))
+        return {"prog": prog, "cases": ncase, "nread": nread, "fails": fails, "dropped": ndropped,
+                "exhaustive": exhaustive}
+    finally:
+        restore()
+
+# =====================================================================================
+# part (d): unfolded attribute references as operands
+# =====================================================================================
+# ``acc = z.imag`` (z an rx) is an expression whose attribute access is still pending.  It is used
+# here in every operand position: right-hand operand of an rx, left-hand operand, reflected
+# operand of a constant, both sides, index, slice bound, positional / keyword argument of a method,
+# of .rx.pipe / .rx.map / bind, and as operand of the .rx helpers.  History: read, update z, read,
+# update x, read, update z again, read (optionally the reference is read once before it is used).
+
+# (label, source of z, attribute, later values of z)
+ACC_SOURCES = [
+    ("complex.imag", "(2+3j)", "imag", ["(5+7j)", "(1-2j)"]),
+    ("complex.real", "(2+3j)", "real", ["(5+7j)", "(1-2j)"]),
+    ("slice.start", "slice(1, 3)", "start", ["slice(2, 4)", "slice(0, 1)"]),
+    ("slice.stop", "slice(1, 3)", "stop", ["slice(2, 4)", "slice(0, 1)"]),
+    ("Fraction.numerator", "Fraction(3, 4)", "numerator", ["Fraction(1, 2)", "Fraction(2, 7)"]),
+    ("Fraction.denominator", "Fraction(3, 4)", "denominator", ["Fraction(1, 2)", "Fraction(2, 7)"]),
+    ("range.step", "range(0, 9, 3)", "step", ["range(0, 9, 2)", "range(0, 9, 1)"]),
+    ("int.real", "3", "real", ["2", "1"]),
+]
+ACC_QUICK = ("complex.imag", "slice.start", "Fraction.denominator", "int.real")
+_ACC_X = {"n": ("10", "7"), "l": ("[3, 1, 2, 3, 0, 1]", "[2, 2, 1, 0, 3, 4, 1]"), "s": ("'a,b,c,d'", "'x,y,z,w,v'"),
+          "f": ("2.34567", "9.87654"), "c": ("True", "0")}
+
+
+def _acc_contexts():
+    """(name, type of x, build(X, A, rx, bind) -> expression, plain(x, a))"""
+    C = []
+    for name, fn, src in BINOPS:
+        if name == "matmul":
+            continue
+        C.append(("rhs:" + name, "n", (lambda X, A, rx, bind, fn=fn: fn(X, A)), fn))
+        C.append(("lhs:" + name, "n", (lambda X, A, rx, bind, fn=fn: fn(A, 4)), (lambda x, a, fn=fn: fn(a, 4))))
+        C.append(("lhs-rx:" + name, "n", (lambda X, A, rx, bind, fn=fn: fn(A, X)), (lambda x, a, fn=fn: fn(a, x))))
+        C.append(("ref:" + name, "n", (lambda X, A, rx, bind, fn=fn: fn(9, A)), (lambda x, a, fn=fn: fn(9, a))))
+    for name, fn, src, _ in CMPOPS:
+        C.append(("rhs:" + name, "n", (lambda X, A, rx, bind, fn=fn: fn(X, A)), fn))
+        C.append(("ref:" + name, "n", (lambda X, A, rx, bind, fn=fn: fn(3, A)), (lambda x, a, fn=fn: fn(3, a))))
+    C += [
+        ("unary:neg", "n", lambda X, A, rx, bind: -A, lambda x, a: -a),
+        ("unary:abs", "n", lambda X, A, rx, bind: abs(A), lambda x, a: abs(a)),
+        ("index", "l", lambda X, A, rx, bind: X[A], lambda x, a: x[a]),
+        ("slice-lo", "l", lambda X, A, rx, bind: X[A:], lambda x, a: x[a:]),
+        ("slice-hi", "l", lambda X, A, rx, bind: X[:A], lambda x, a: x[:a]),
+        ("slice-step", "l", lambda X, A, rx, bind: X[::A], lambda x, a: x[::a]),
+        ("arg:count", "l", lambda X, A, rx, bind: X.count(A), lambda x, a: x.count(a)),
+        ("arg:split", "s", lambda X, A, rx, bind: X.split(",", A), lambda x, a: x.split(",", a)),
+        ("kw:split", "s", lambda X, A, rx, bind: X.split(",", maxsplit=A), lambda x, a: x.split(",", maxsplit=a)),
+        ("arg:round", "f", lambda X, A, rx, bind: round(X, A), lambda x, a: round(x, a)),
+        ("arg:pipe", "n", lambda X, A, rx, bind: X.rx.pipe(f_sub, A), lambda x, a: f_sub(x, a)),
+        ("kw:pipe", "n", lambda X, A, rx, bind: X.rx.pipe(f_sub, y=A), lambda x, a: f_sub(x, y=a)),
+        ("self:pipe", "n", lambda X, A, rx, bind: A.rx.pipe(f_sub, X), lambda x, a: f_sub(a, x)),
+        ("arg:map", "l", lambda X, A, rx, bind: X.rx.map(f_sub, A), lambda x, a: [f_sub(v, a) for v in x]),
+        ("kw:map", "l", lambda X, A, rx, bind: X.rx.map(f_sub, y=A), lambda x, a: [f_sub(v, y=a) for v in x]),
+        ("arg:bind", "n", lambda X, A, rx, bind: rx(bind(f_sub, X, A)), lambda x, a: f_sub(x, a)),
+        ("arg0:bind", "n", lambda X, A, rx, bind: rx(bind(f_sub, A, X)), lambda x, a: f_sub(a, x)),
+        ("kw:bind", "n", lambda X, A, rx, bind: rx(bind(f_sub, X, y=A)), lambda x, a: f_sub(x, y=a)),
+        ("helper:where-x", "c", lambda X, A, rx, bind: rx(X.rx.where(A, -1)), lambda x, a: a if x else -1),
+        ("helper:where-y", "c", lambda X, A, rx, bind: rx(X.rx.where(-1, A)), lambda x, a: -1 if x else a),
+        ("helper:where-cond", "n", lambda X, A, rx, bind: rx(A.rx.where(X, -1)), lambda x, a: x if a else -1),
+        ("helper:and_", "n", lambda X, A, rx, bind: X.rx.and_(A), lambda x, a: x and a),
+        ("helper:or_", "c", lambda X, A, rx, bind: X.rx.or_(A), lambda x, a: x or a),
+        ("helper:self-and_", "n", lambda X, A, rx, bind: A.rx.and_(X), lambda x, a: a and x),
+        ("helper:in_", "l", lambda X, A, rx, bind: (A + 1).rx.in_(X), lambda x, a: (a + 1) in x),
+        ("helper:self-in_", "l", lambda X, A, rx, bind: A.rx.in_(X), lambda x, a: a in x),
+        ("helper:is_", "n", lambda X, A, rx, bind: X.rx.is_(A), lambda x, a: x is a),
+        ("helper:self-not_", "n", lambda X, A, rx, bind: A.rx.not_(), lambda x, a: not a),
+        ("helper:self-bool", "n", lambda X, A, rx, bind: A.rx.bool(), lambda x, a: bool(a)),
+        ("both:add", "n", None, None),      # two references of the same z: handled in the driver
+        ("both:sub-other", "n", None, None),
+    ]
+    return C
+
+
+_ACC_HIST = ("R", "uz", "R", "ux", "R", "uz", "R")
+
+
+def _acc_case(label, zsrc, attr, zlater, cname, xt, build, plain, preread):
+    """Returns (n_checks, failure or None); failure = (step text, detail, want, got)."""
+    from param import rx, bind
+    zv = _val(zsrc)
+    xv = _val(_ACC_X[xt][0])
+    z = rx(zv)
+    X = rx(xv)
+    A = getattr(z, attr)
+    if not isinstance(A, rx):
+        return 0, ("build", "z.%s is not an expression (%s)" % (attr, type(A).__name__), "-", "-")
+    if preread:
+        want0 = getattr(zv, attr)
+        got0 = outcome(lambda: A.rx.value)
+        if not _cmp_out(got0, ("val", want0)):
+            return 1, ("pre-read", "the reference itself reads %s" % show(got0), short(want0), show(got0))
+    if cname == "both:add":
+        build_ = lambda: A + getattr(z, attr)                       # noqa: E731
+        plain_ = lambda x, zz: getattr(zz, attr) + getattr(zz, attr)    # noqa: E731
+    elif cname == "both:sub-other":
+        other = "real" if attr != "real" else ("imag" if hasattr(zv, "imag") else "real")
+        if not hasattr(zv, other):
+            other = attr
+        build_ = lambda: A - getattr(z, other)                      # noqa: E731
+        plain_ = lambda x, zz: getattr(zz, attr) - getattr(zz, other)   # noqa: E731
+    else:
+        build_ = lambda: build(X, A, rx, bind)                      # noqa: E731
+        plain_ = lambda x, zz: plain(x, getattr(zz, attr))         # noqa: E731
+    want_now = outcome(lambda: plain_(xv, zv))
+    try:
+        e = build_()
+    except Exception as ex:     # noqa: BLE001
+        if want_now[0] == "exc":
+            return 0, None      # plain Python raises for these operands too: nothing to check
+        return 1, ("build", "building raised %s: %s" % (type(ex).__name__, ex), show(want_now),
+                   "exc:%s@build" % type(ex).__name__)
+    if not isinstance(e, rx):
+        return 0, None
+    n = 0
+    zi = 0
+    done = []
+    for op in _ACC_HIST:
+        done.append(op)
+        if op == "uz":
+            zv = _val(zlater[zi % len(zlater)])
+            zi += 1
+            try:
+                z.rx.value = zv
+            except Exception:       # noqa: BLE001  tolerated (see module docstring)
+                pass
+        elif op == "ux":
+            xv = _val(_ACC_X[xt][1])
+            try:
+                X.rx.value = xv
+            except Exception:       # noqa: BLE001
+                pass
+        else:
+            want = outcome(lambda: plain_(xv, zv))
+            got = outcome(lambda: e.rx.value)
+            n += 1
+            if not _cmp_out(got, want):
+                return n, (",".join(done), "x=%s z=%s" % (short(xv), short(zv)), show(want), show(got))
+    return n, None
+
+
+def _acc_task(args):
+    tier, = args
+    restore = _quiet()
+    try:
+        ctxs = _acc_contexts()
+        ncase = ncheck = 0
+        fails = []
+        for (label, zsrc, attr, zlater) in ACC_SOURCES:
+            if tier != "thorough" and label not in ACC_QUICK:
+                continue
+            for (cname, xt, build, plain) in ctxs:
+                for preread in (0, 1):
+                    ncase += 1
+                    try:
+                        n, f = _acc_case(label, zsrc, attr, zlater, cname, xt, build, plain, preread)
+                    except Exception as ex:     # noqa: BLE001
+                        import traceback
+                        n, f = 0, ("harness", "%s: %s | %s" % (type(ex).__name__, ex,
+                                                               traceback.format_exc().splitlines()[-3:]), "-", "-")
+                    ncheck += n
+                    if f:
+                        fails.append((label, zsrc, attr, tuple(zlater), cname, xt, preread) + tuple(f))
+        return {"cases": ncase, "checks": ncheck, "fails": fails}
+    finally:
+        restore()
+
+
+_ACC_SRC = {
+    "index": ("X[A]", "x[a]"), "slice-lo": ("X[A:]", "x[a:]"), "slice-hi": ("X[:A]", "x[:a]"),
+    "slice-step": ("X[::A]", "x[::a]"), "arg:count": ("X.count(A)", "x.count(a)"),
+    "arg:split": ("X.split(',', A)", "x.split(',', a)"), "kw:split": ("X.split(',', maxsplit=A)", "x.split(',', maxsplit=a)"),
+    "arg:round": ("round(X, A)", "round(x, a)"), "arg:pipe": ("X.rx.pipe(f_sub, A)", "f_sub(x, a)"),
+    "kw:pipe": ("X.rx.pipe(f_sub, y=A)", "f_sub(x, y=a)"), "self:pipe": ("A.rx.pipe(f_sub, X)", "f_sub(a, x)"),
+    "arg:map": ("X.rx.map(f_sub, A)", "[f_sub(v, a) for v in x]"),
+    "kw:map": ("X.rx.map(f_sub, y=A)", "[f_sub(v, y=a) for v in x]"),
+    "arg:bind": ("rx(bind(f_sub, X, A))", "f_sub(x, a)"), "arg0:bind": ("rx(bind(f_sub, A, X))", "f_sub(a, x)"),
+    "kw:bind": ("rx(bind(f_sub, X, y=A))", "f_sub(x, y=a)"),
+    "helper:where-x": ("rx(X.rx.where(A, -1))", "(a if x else -1)"),
+    "helper:where-y": ("rx(X.rx.where(-1, A))", "(-1 if x else a)"),
+    "helper:where-cond": ("rx(A.rx.where(X, -1))", "(x if a else -1)"),
+    "helper:and_": ("X.rx.and_(A)", "(x and a)"), "helper:or_": ("X.rx.or_(A)", "(x or a)"),
+    "helper:self-and_": ("A.rx.and_(X)", "(a and x)"), "helper:in_": ("(A + 1).rx.in_(X)", "((a + 1) in x)"),
+    "helper:self-in_": ("A.rx.in_(X)", "(a in x)"), "helper:is_": ("X.rx.is_(A)", "(x is a)"),
+    "helper:self-not_": ("A.rx.not_()", "(not a)"), "helper:self-bool": ("A.rx.bool()", "bool(a)"),
+    "unary:neg": ("-A", "-a"), "unary:abs": ("abs(A)", "abs(a)"),
+}
+
+
+def _acc_sources(cname, attr, zsrc):
+    """(rx source, plain source) of a context; in the plain source x, a, zz are the current values."""
+    if cname in _ACC_SRC:
+        return _ACC_SRC[cname]
+    kind, name = cname.split(":")
+    if kind == "both":
+        if name == "add":
+            return ("A + z.%s" % attr, "a + zz.%s" % attr)
+        zv = _val(zsrc)
+        other = "real" if attr != "real" else ("imag" if hasattr(zv, "imag") else "real")
+        if not hasattr(zv, other):
+            other = attr
+        return ("A - z.%s" % other, "a - zz.%s" % other)
+    src = ([s for n, f, s in BINOPS if n == name] + [s for n, f, s, _ in CMPOPS if n == name])[0]
+
+    def sub(xs, ys):
+        # the templates are 'x <op> y' / 'divmod(x, y)': substitute both names in one pass
+        return "".join({"x": xs, "y": ys}.get(ch, ch) for ch in src) if name != "xor" else "%s ^ %s" % (xs, ys)
+    k = "3" if name in [n for n, _, _, _ in CMPOPS] else "9"
+    return {"rhs": (sub("X", "A"), sub("x", "a")), "lhs": (sub("A", "4"), sub("a", "4")),
+            "lhs-rx": (sub("A", "X"), sub("a", "x")), "ref": (sub(k, "A"), sub(k, "a"))}[kind]
+
+
+def acc_replay(f, clause, witness):
+    (label, zsrc, attr, zlater, cname, xt, preread, steps, detail, want, got) = f
+    rsrc, psrc = _acc_sources(cname, attr, zsrc)
+    hdr = REPLAY_HEADER.format(prop=PROP, name="replay_c09_operand.py", clause=clause, witness=witness)
+    L = [hdr, "import warnings, logging", "warnings.simplefilter('ignore')", "from fractions import Fraction",
+         "import param", "from param import rx, bind",
+         "param.parameterized.get_logger().setLevel(logging.CRITICAL + 10)", FN_SRC,
+         "def outcome(th):", "    try: return ('val', th())",
+         "    except Exception as e: return ('exc', type(e).__name__)",
+         "def canon(v):",
+         "    if isinstance(v, (list, tuple)): return (type(v).__name__, tuple(canon(i) for i in v))",
+         "    return (type(v).__name__, repr(v))",
+         "def plain(x, zz):", "    a = zz.%s" % attr, "    return %s" % psrc,
+         "zz = %s; x = %s" % (zsrc, _ACC_X[xt][0]),
+         "z = rx(zz); X = rx(x)",
+         "A = z.%s          # attribute reference, not yet part of an operation" % attr]
+    if preread:
+        L.append("print('the reference itself reads', A.rx.value)")
+    L += ["bad = None", "try:", "    e = %s" % rsrc, "except Exception as ex:",
+          "    e = None; bad = 'building the expression raised %s: %s' % (type(ex).__name__, ex)",
+          "def check(tag):", "    global bad",
+          "    if e is None or bad: return",
+          "    got = outcome(lambda: e.rx.value); want = outcome(lambda: plain(x, zz))",
+          "    print(tag, ': rx', got, ' plain', want)",
+          "    if got[0] != want[0] or canon(got[1]) != canon(want[1]):",
+          "        bad = '%s: the expression gives %r, plain Python gives %r' % (tag, got, want)"]
+    zi = 0
+    for op in _ACC_HIST:
+        if op == "uz":
+            L.append("zz = %s; z.rx.value = zz" % zlater[zi % len(zlater)])
+            zi += 1
+        elif op == "ux":
+            L.append("x = %s; X.rx.value = x" % _ACC_X[xt][1])
+        else:
+            L.append("check('read')")
+    L += ["if bad:", "    print('REPRODUCED: ' + bad)", "    sys.exit(1)", "print('NOT-REPRODUCED')", "sys.exit(0)"]
+    return "\n".join(L) + "\n"
+
+
+# =====================================================================================
 # run
 # =====================================================================================
 
@@ -1398,10 +1863,25 @@ def run(tier, seed):
               "every history of exactly L ops from {update x, invalidate x (None), repair x, read "
               "node k} ending in a read (all shorter histories are prefixes; every read is "
               "checked), each with and without a .rx.watch callback on the top node; "
-              "distinct = (program, watch, history)") % len(FIXED),
+              "distinct = (program, watch, history). "
+              "(c) the same programs with only the first m nodes (every m) built before the history: reads of "
+              "a subset of {built nodes, rx roots} ; one input update (or invalidate, re-read, repair) ; "
+              "nothing or one more read ; DERIVE the remaining nodes ; read every derived node ; optionally "
+              "one more update and the reads again -- a failure counts only if the same operations pass with "
+              "all nodes built up front; distinct = (program, m, history). "
+              "(d) an unfolded attribute reference z.attr (8 attribute kinds, 4 in quick: complex.imag/real, "
+              "slice.start/stop, Fraction.numerator/denominator, range.step, int.real) in every operand position (right / "
+              "left / reflected operand of every binary and comparison operator, unary, index, slice bounds, "
+              "positional and keyword argument of methods, pipe, map, bind, operand and subject of the .rx "
+              "helpers, two references), read / update z / read / update x / read / update z / read, with "
+              "and without a read of the reference before it is used") % len(FIXED),
         bound=("lattice %d values; depth-1: all programs, L=%d; depth 2-3: %d fixed + %d random "
-               "programs (seed %d), L=%d; input value cycles of 5 values incl. 0 / short lists"
-               % (len(lat), L1, len(FIXED), n_random, seed, L2)))
+               "programs (seed %d), L=%d; input value cycles of 5 values incl. 0 / short lists; part (c): %s "
+               "staged histories per (program, m); part (d): %d attribute kinds x %d positions x 2"
+               % (len(lat), L1, len(FIXED), n_random, seed, L2,
+                  "all, every m" if thorough else
+                  "the canonical ones + a seeded sample, <= 4 (one node, m=0) / <= 12 (more nodes, m>=1)",
+                  len(ACC_SOURCES) if thorough else len(ACC_QUICK), len(_acc_contexts()))))
     B.exhaustive = False
 
     tasks_a = ([("bin", n, tier) for n, _, _ in BINOPS] + [("cmp", n, tier) for n, _, _, _ in CMPOPS]
@@ -1424,12 +1904,18 @@ def run(tier, seed):
     order = sorted(range(len(tasks_b)),
                    key=lambda i: (-(len(tasks_b[i][0]) + len(prog_inputs(tasks_b[i][0]))) ** tasks_b[i][1], i))
 
+    cap1, cap2 = (10 ** 9, 10 ** 9) if thorough else (4, 12)
+    tasks_c = [(p, tier, seed, cap1) for p in d1] + [(p, tier, seed, cap2) for p in deep]
     ctx = mp.get_context("fork")
     with ProcessPoolExecutor(max_workers=NPROC, mp_context=ctx) as ex:
         fut_b = {i: ex.submit(_dag_task, tasks_b[i]) for i in order}      # big tasks first
         fut_a = [ex.submit(_optable_task, t) for t in tasks_a]
+        fut_d = ex.submit(_acc_task, (tier,))
+        fut_c = [ex.submit(_staged_task, t) for t in sorted(tasks_c, key=lambda t: -len(t[0]))]
         res_a = [f.result() for f in fut_a]
         res_b = [fut_b[i].result() for i in range(len(tasks_b))]
+        res_c = [f.result() for f in fut_c]
+        res_d = fut_d.result()
 
     # ---- (a) merge ------------------------------------------------------------------------
     import param.reactive as R
@@ -1497,6 +1983,67 @@ def run(tier, seed):
                     detail="%s; %d failing histories in this class" % (detail, cnt),
                     replay=dag_replay(prog, h, watch, clause, witness))
         B._seen[(clause, witness)]["count"] = cnt
+
+    # ---- (c) merge: expressions derived from dirty nodes ----------------------------------
+    classes_c = {}
+    c_cases = c_dropped = 0
+    for r in res_c:
+        prog = r["prog"]
+        pk = prog_key(prog)
+        B.evaluations += r["cases"]
+        B._distinct.update(("c", pk, i) for i in range(r["cases"]))
+        c_cases += r["cases"]
+        c_dropped += r["dropped"]
+        B.checked("C09/derive/value==denote", r["nread"])
+        for (clause, kind, h, m, detail, cul) in r["fails"]:
+            if kind == "stale":
+                ck = (clause, kind, "via-" + prog_via(prog, cul))
+            else:
+                ck = (clause, kind, prog[cul][0])
+            size = (len(prog), len(h), pk, m, h)
+            if ck not in classes_c:
+                classes_c[ck] = [size, prog, h, m, detail, 0]
+            ent = classes_c[ck]
+            ent[5] += 1
+            if size < ent[0]:
+                ent[:5] = [size, prog, h, m, detail]
+    for ck in sorted(classes_c):
+        size, prog, h, m, detail, cnt = classes_c[ck]
+        clause, kind, ctor = ck
+        witness = "kind=%s node=%s prog=%s built=%d hist=%s" % (kind, ctor, prog_key(prog), m, ",".join(h))
+        B.violation(clause, witness,
+                    detail="%s; passes when every node is built before the history starts; %d failing "
+                           "histories in this class" % (detail, cnt),
+                    replay=dag_replay(prog, h, False, clause, witness, built=m))
+        B._seen[(clause, witness)]["count"] = cnt
+    B.note("part (c): %d staged histories over %d programs; %d failing histories were dropped because the same "
+           "operations fail with all nodes built up front as well (not specific to the derivation: part (b))"
+           % (c_cases, len(res_c), c_dropped))
+
+    # ---- (d) merge: attribute references as operands ------------------------------------
+    B.evaluations += res_d["cases"]
+    B._distinct.update(("d", i) for i in range(res_d["cases"]))
+    B.checked("C09/operand/accessor==plain", res_d["checks"])
+    classes_d = {}
+    for f in res_d["fails"]:
+        (label, zsrc, attr, zlater, cname, xt, preread, steps, detail, want, got) = f
+        pos_kind = cname.split(":")[0]
+        group = {"rhs": "operator", "lhs": "operator", "lhs-rx": "operator", "ref": "operator", "both": "operator",
+                 "unary": "operator", "index": "index", "slice-lo": "index", "slice-hi": "index",
+                 "slice-step": "index", "helper": "helper"}.get(pos_kind, "argument")
+        classes_d.setdefault(group, []).append(f)
+    for ck in sorted(classes_d):
+        allf = classes_d[ck]
+        f = ([g for g in allf if g[9].startswith("val")] or allf)[0]
+        (label, zsrc, attr, zlater, cname, xt, preread, steps, detail, want, got) = f
+        clause = "C09/operand/accessor==plain"
+        witness = "group=%s position=%s attr=%s preread=%d hist=%s want=%s got=%s" % (
+            ck, cname, label, preread, steps, want, got)
+        B.violation(clause, witness,
+                    detail="%s; %d failing (attribute, position) cases of this kind, e.g. %s" % (
+                        detail, len(allf), "; ".join("%s/%s" % (g[4], g[0]) for g in allf[:6])),
+                    replay=(acc_replay(f, clause, witness) if steps not in ("harness",) else None))
+        B._seen[(clause, witness)]["count"] = len(allf)
 
     B.sample({"part": "a", "tasks": len(tasks_a), "cases": a_cases,
               "not_dispatched_to_rx": sum(r["trivial"] for r in res_a)})
